@@ -169,8 +169,8 @@ pub fn call_generator(src: &str, opts: &Opts, detail: u64, budget: u64) -> CallO
             let r1 = catch_unwind(AssertUnwindSafe(|| e.emit_to_string(src)));
             let r2 = catch_unwind(AssertUnwindSafe(|| e.emit_to_string_with_path(src, "shader.wgsl")));
             renders = json!({
-                "to_string": match &r1 { Ok(s) => json!({"ok": true, "len": s.len()}), Err(_) => json!({"ok": false}) },
-                "to_string_with_path": match &r2 { Ok(s) => json!({"ok": true, "len": s.len(), "has_path": s.contains("shader.wgsl")}), Err(_) => json!({"ok": false}) },
+                "to_string": match &r1 { Ok(s) => json!({"ok": true, "len": s.len(), "text": if s.len() < 200 { s.as_str() } else { "" }}), Err(_) => json!({"ok": false}) },
+                "to_string_with_path": match &r2 { Ok(s) => json!({"ok": true, "len": s.len(), "has_path": s.contains("shader.wgsl"), "text": if s.len() < 200 { s.as_str() } else { "" }}), Err(_) => json!({"ok": false}) },
                 "to_stderr": json!({"ok": r3.is_ok()}),
             });
             let mut m = json!({"kind":"err","err":name,"display":disp});
